@@ -193,6 +193,9 @@ fn table<const N: usize>(idx: usize) -> [u8; N] {
 
 struct Ctx {
     ops: Shards,
+    /// events of the two calls with a known finding (buffer_unary_not at offsets that are not a multiple of 64,
+    /// set_bits into a destination range that is not zero): kept apart so that the main trace has no KNOWN lines
+    kf: Shards,
     bld: Shards,
     rng: Rng,
     cases: usize,
@@ -203,11 +206,15 @@ struct Ctx {
 impl Ctx {
     /// emit the event built by `f`, or a `panic` event (which TLC rejects) if the code under test panicked
     fn record(&mut self, kind: &str, params: Value, f: impl FnOnce() -> Value) {
+        self.record_to(false, kind, params, f)
+    }
+    fn record_to(&mut self, kf: bool, kind: &str, params: Value, f: impl FnOnce() -> Value) {
+        let t = if kf { &mut self.kf } else { &mut self.ops };
         match guarded(f) {
-            Ok(ev) => self.ops.emit(ev),
+            Ok(ev) => t.emit(ev),
             Err(msg) => {
                 self.panics += 1;
-                self.ops.emit(json!({"op": "panic", "kind": kind, "params": params, "msg": msg}));
+                t.emit(json!({"op": "panic", "kind": kind, "params": params, "msg": msg}));
             }
         }
     }
@@ -290,7 +297,8 @@ fn un_case(c: &mut Ctx, off: usize, n: usize, pat: usize) {
                 "rem": words_bits(std::iter::once(bc.remainder_bits())), "padded": bc.iter_padded().count(),
                 "ulead": u.lead_padding(), "utrail": u.trailing_padding(), "uw": words_bits(u.iter()),
                 "not": logical(&!&bb),
-                "bnot": first_bits(buffer_unary_not(&p.buf, off, n).as_slice(), n),
+                "hb": off % 64 == 0,
+                "bnot": if off % 64 == 0 { first_bits(buffer_unary_not(&p.buf, off, n).as_slice(), n) } else { vec![] },
                 "hnot": first_bits(bitwise_unary_op_helper(&p.buf, off, n, |x| !x).as_slice(), n),
                 "un": logical(&BooleanBuffer::from_bitwise_unary_op(bytes, off, n, w1(f1))),
                 "hun": first_bits(bitwise_unary_op_helper(&p.buf, off, n, w1(f1)).as_slice(), n),
@@ -303,6 +311,19 @@ fn un_case(c: &mut Ctx, off: usize, n: usize, pat: usize) {
                 "d0": d0, "d1": d1,
             })
         });
+    }
+    if off % 64 != 0 {
+        // buffer_unary_not at the remaining offsets (known finding): own trace
+        for run in 1..=2usize {
+            let (a, sur) = (a.clone(), sur.clone());
+            let sh = if run == 1 { 0 } else { sh2 };
+            c.record_to(true, "bnot", json!({"off": off, "n": n, "run": run}), move || {
+                let p = place(&a, off, extra, sh, &sur, run == 2);
+                json!({"op": "bnot", "run": run, "off": off, "n": n, "sh": sh, "a": b01(&a), "d0": all_bits(p.bytes()),
+                       "bnot": first_bits(buffer_unary_not(&p.buf, off, n).as_slice(), n)})
+            });
+        }
+        c.kf.next_episode();
     }
     c.cases += 1;
     c.ops.next_episode();
@@ -386,7 +407,7 @@ fn set_case(c: &mut Ctx, dof: usize, sof: usize, n: usize, pat: usize, zeroed: b
         let (shs_, shd) = if run == 1 { (0, 0) } else { (shs[0], shs[1]) };
         let (src, sur, dsur, dcontent) = (src.clone(), sur.clone(), dsur.clone(), dcontent.clone());
         let params = json!({"do": dof, "so": sof, "n": n, "run": run});
-        c.record("set", params, move || {
+        c.record_to(!zeroed, "set", params, move || {
             let s = place(&src, sof, extra, shs_, &sur, run == 2);
             // the destination is the same in both runs (only the source's surroundings change)
             let d = place(&dcontent, dof, dextra, 0, &dsur, false);
@@ -399,7 +420,7 @@ fn set_case(c: &mut Ctx, dof: usize, sof: usize, n: usize, pat: usize, zeroed: b
         });
     }
     c.cases += 1;
-    c.ops.next_episode();
+    if zeroed { c.ops.next_episode() } else { c.kf.next_episode() }
 }
 
 // ---------------------------------------------------------------------- quat
@@ -709,14 +730,30 @@ fn builder_episode(c: &mut Ctx, is_bool: bool, grid: Option<(usize, usize, usize
 
 // ---------------------------------------------------------------------- main
 
+/// minimal reproductions of the two known findings (`c19 repro`)
+fn repro() {
+    // buffer_unary_not ignores offset % 64: NOT of bits 1..5 of 0b0000_1111 is 0,0,0,1
+    let b = Buffer::from(vec![0b0000_1111u8]);
+    let r = buffer_unary_not(&b, 1, 4);
+    println!("buffer_unary_not(&[0b00001111], 1, 4) first 4 bits = {:?} (NOT of input bits 1..5 = [0, 0, 0, 1])", first_bits(r.as_slice(), 4));
+    // set_bits ORs into a destination range that is not zero
+    let mut dst = [0b1111_1111u8];
+    let zeros = set_bits(&mut dst, &[0u8], 2, 0, 3);
+    println!("set_bits(dst = [0b11111111], data = [0], offset_write 2, offset_read 0, len 3) -> dst = {:#010b}, returned {zeros} (documented: bits 2..5 become 0)", dst[0]);
+}
+
 fn main() {
     let args = Args::parse();
+    if args.driver == "repro" {
+        return repro();
+    }
     vcore::quiet_panics();
     let thorough = args.thorough();
     let dir = args.out.clone();
     let mut c = Ctx {
-        ops: Shards::create(&dir, "ops", if thorough { 42 } else { 14 }),
-        bld: Shards::create(&dir, "builder", 14),
+        ops: Shards::create(&dir, "ops", if thorough { 70 } else { 14 }),
+        kf: Shards::create(&dir, "kf", if thorough { 14 } else { 2 }),
+        bld: Shards::create(&dir, "builder", if thorough { 14 } else { 6 }),
         rng: Rng::new(args.seed ^ 0xC19),
         cases: 0,
         panics: 0,
@@ -763,15 +800,15 @@ fn main() {
             }
         }
     } else {
-        // a seeded third of the boundary cube
+        // a seeded twelfth of the boundary cube
         for &lo in &LATTICE {
             for &ro in &LATTICE {
                 for &n in &LENS {
                     k += 1;
-                    if k % 6 == (args.seed as usize) % 6 {
+                    if k % 12 == (args.seed as usize) % 12 {
                         bin_case(&mut c, lo, ro, n, 5, k % NPAT);
                     }
-                    if k % 6 == (args.seed as usize + 3) % 6 {
+                    if k % 12 == (args.seed as usize + 5) % 12 {
                         set_case(&mut c, lo, ro, n, k % NPAT, k % 8 != 0);
                     }
                 }
@@ -820,19 +857,19 @@ fn main() {
         for &so in &LATTICE {
             for &n in &LENS {
                 j += 1;
-                if thorough || j % 8 == (args.seed as usize) % 8 {
+                if thorough || j % 16 == (args.seed as usize) % 16 {
                     builder_episode(&mut c, j % 4 != 0, Some((dst, so, n)), 3);
                 }
             }
         }
     }
-    for i in 0..args.scale(60, 1500) {
+    for i in 0..args.scale(30, 1500) {
         builder_episode(&mut c, i % 2 == 0, None, 12);
     }
 
     let cases = c.cases;
     let panics = c.panics;
-    let ev_ops = c.ops.finish();
+    let ev_ops = c.ops.finish() + c.kf.finish();
     let ev_bld = c.bld.finish();
     println!("DRIVER c19 cases={cases} events={} ops_events={ev_ops} builder_events={ev_bld} panics={panics}", ev_ops + ev_bld);
 }
